@@ -97,7 +97,7 @@ PROPS["C13"] = {
 PROPS["C03"] = {
     "level": "other",
     "technique": "Verus contracts on the extracted complete_compaction transformers of both backends (atomic swap: exactly the sources leave, target stays one level above the highest source, index invariant kept, unknown target => no change) and on the compactor's publish order",
-    "verus": ["c03_compaction.rs.in"],
+    "verus": ["c03_compaction.rs.in", "c03_compactor.rs.in"],
     "explanation": "Deductive obligations on the catalog transformers and the publish order of one compaction; row conservation of the merge itself rests on assumed arrow/parquet kernel contracts (concat_batches, sort_to_indices + take, Parquet encode/decode are value preserving). Crashes, two compactors and lease expiry are covered only through the atomic-swap contract (sources leave the catalog only inside one conditional PUT that requires the registered target) and the lease invariant of C08; interleavings are not explored.",
     "assumptions": [
         "arrow concat_batches / sort_to_indices / take and the Parquet writer/reader preserve the multiset of rows",
@@ -270,7 +270,7 @@ PROPS["C06"] = {
 PROPS["C01"] = {
     "level": "other",
     "technique": "Verus effect-order contracts on the extracted write path (WAL append before buffer append before the acknowledgement; a WAL failure buffers nothing), on flush_batches (upload, registration, announcements, then WAL truncation, then the persisted mark; a failed flush never moves the mark; under quiescence the mark equals the flushed cover) and the WAL reader / header codec units of C05; two probes record the known findings F3 and F4",
-    "verus": ["c01_durability.rs.in", "c06_ingest.rs.in", "c05_wal_reader.rs.in"],
+    "verus": ["c01_durability.rs.in", "c06_ingest.rs.in", "c05_wal_reader.rs.in", "c05_wal_fs.rs.in"],
     "kani": ["c05_header"],
     "explanation": "Sequential crash-point core only: between every two effects of write and flush_batches the ordering obligations hold for all inputs and all failure points of the shimmed callees (each effect either happened or not). The schedule quantifier of C01 is NOT covered beyond one rely on the shared sequence cell, and exactly there the property fails today (known findings F3, F4, demonstrated on the real code under /verif/findings). Recovery (ensure_wal) is covered through the WAL reader contract of C05; its re-buffering loop is not under contract yet. OS-level durability of synced bytes is assumed.",
     "assumptions": [
